@@ -700,6 +700,29 @@ func dirIgnoreShape(p *pkg) (shape, src string) {
 	return
 }
 
+// the test that makes a select recursive, as written in newFileSet's select loop
+func recursiveSelectTest(p *pkg) string {
+	fd := p.fn("", "newFileSet")
+	if fd == nil {
+		return "missing"
+	}
+	out := "unknown"
+	ast.Inspect(fd.Body, func(n ast.Node) bool {
+		rs, ok := n.(*ast.RangeStmt)
+		if !ok || p.src(rs.X) != "r.Select" {
+			return true
+		}
+		for _, st := range rs.Body.List {
+			if ifs, ok := st.(*ast.IfStmt); ok && strings.Contains(p.src(ifs.Body), "listAllFiles") {
+				out = p.src(ifs.Cond)
+				break
+			}
+		}
+		return false
+	})
+	return out
+}
+
 func genCaco3Paths(repo string, fs facts) (string, error) {
 	p, err := loadPkg(repo, "caco3")
 	if err != nil {
@@ -747,6 +770,8 @@ func genCaco3Paths(repo string, fs facts) (string, error) {
 	fmt.Fprintf(&b, "def dirIgnoreShape : String := %s\n", leanStr(shape))
 	b.WriteString("/-- newFileSet: what is stored in fileSet.includes (\"raw\" = r.Include as written, \"makePath\" = resolved) -/\n")
 	fmt.Fprintf(&b, "def includeShape : String := %s\n\n", leanStr(inclShape))
+	b.WriteString("/-- newFileSet: the condition under which a select is a recursive listing instead of a glob -/\n")
+	fmt.Fprintf(&b, "def recursiveSelectTest : String := %s\n\n", leanStr(recursiveSelectTest(p)))
 	b.WriteString("/-- every call of env.src / env.out / env.prepareOut: file, function, callee, arguments, origin class of the arguments\n")
 	b.WriteString("    (\"lit\", \"resolved\" = flows from makePath/makeRelPath, \"forward\", or \"unresolved:<why>\") -/\n")
 	b.WriteString("def callSites : List (String × String × String × String × String) := [\n")
@@ -778,5 +803,6 @@ func genCaco3Paths(repo string, fs facts) (string, error) {
 	fs["caco3_listall_exclusions"] = map[string][]string{"names": names, "suffixes": suffixes, "dirs": dirs}
 	fs["caco3_dir_ignore_shape"] = shape
 	fs["caco3_include_shape"] = inclShape
+	fs["caco3_recursive_select_test"] = recursiveSelectTest(p)
 	return b.String(), nil
 }
